@@ -328,3 +328,182 @@ func (w *World) ssCold(root *Node, kind string, regs map[atree.SlabID][]byte) er
 	}
 	return nil
 }
+
+// ---------------------------------------------------------------------------------------------
+// Small-scope exhaustive exploration of nested-handle interleavings (C10): a root array holding a child array A
+// (which holds a grandchild array G) and a child map B, all handles obtained once at creation and never refreshed.
+// Every sequence of `depth` operations over the alphabet below is executed at slab size 256, where a few medium
+// elements push G, then A, across the inline limit and back.
+
+func ssNestedOps(w *World, root, a, g, b *Node) []ssOp {
+	med := func(tag byte) *Node { return ssStr(w, 36, tag) }
+	firstScalar := func(n *Node) int {
+		for i, e := range n.Elems {
+			if e.container() == nil {
+				return i
+			}
+		}
+		return -1
+	}
+	attached := func(n *Node) bool { return n.Parent != nil }
+	return []ssOp{
+		{"G.append med", func(w *World, r *Node) error {
+			if !attached(g) {
+				return nil
+			}
+			return w.OpArrayAppend(g, med(1))
+		}},
+		{"G.remove first", func(w *World, r *Node) error {
+			if !attached(g) || len(g.Elems) == 0 {
+				return nil
+			}
+			return w.OpArrayRemove(g, 0)
+		}},
+		{"G.pop", func(w *World, r *Node) error {
+			if !attached(g) {
+				return nil
+			}
+			return w.OpArrayPop(g)
+		}},
+		{"A.insert-front med", func(w *World, r *Node) error {
+			if !attached(a) {
+				return nil
+			}
+			return w.OpArrayInsert(a, 0, med(2))
+		}},
+		{"A.remove first scalar", func(w *World, r *Node) error {
+			if !attached(a) {
+				return nil
+			}
+			if i := firstScalar(a); i >= 0 {
+				return w.OpArrayRemove(a, uint64(i))
+			}
+			return nil
+		}},
+		{"A.settype", func(w *World, r *Node) error {
+			if !attached(a) {
+				return nil
+			}
+			return w.OpArraySetType(a, TI{ID: uint64(a.TI.ID+1) % 5})
+		}},
+		{"B.set k med", func(w *World, r *Node) error {
+			return w.OpMapSet(b, &Node{Kind: KU64, U: uint64(len(b.M) % 4)}, med(3))
+		}},
+		{"B.remove k", func(w *World, r *Node) error {
+			k := &Node{Kind: KU64, U: 0}
+			if _, ok := b.M[keyString(k)]; !ok {
+				return nil
+			}
+			return w.OpMapRemove(b, k)
+		}},
+		{"R.insert-front tiny", func(w *World, r *Node) error { return w.OpArrayInsert(r, 0, &Node{Kind: KU8, U: 1}) }},
+		{"R.remove first scalar", func(w *World, r *Node) error {
+			if i := firstScalar(r); i >= 0 {
+				return w.OpArrayRemove(r, uint64(i))
+			}
+			return nil
+		}},
+		{"R.append max", func(w *World, r *Node) error {
+			return w.OpArrayAppend(r, ssStr(w, int(atree.VerifThresholds().MaxInlineArrayElementSize), 4))
+		}},
+		{"commit", func(w *World, r *Node) error { return w.CommitAndCheck(false, 1) }},
+	}
+}
+
+func runSmallScopeNested(c *CaseCtx, depth, part, parts int) *CaseResult {
+	res := &CaseResult{Stats: newStats(), Obs: map[string]int{}}
+	res.Config = map[string]any{"kind": "small-scope exhaustive nested handles", "depth": depth, "part": part, "parts": parts, "slab_size": 256}
+	atree.VerifSetThreshold(256)
+	defer atree.VerifSetThreshold(1024)
+	const nops = 12
+	total := 1
+	for i := 0; i < depth; i++ {
+		total *= nops
+	}
+	seqs := 0
+	for wrapped := 0; wrapped < 2; wrapped++ {
+		for sn := part; sn < total; sn += parts {
+			w := NewWorld(int64(sn), addrOf(3, 0))
+			w.mon = MonCfg{ColdAtCommit: true, DirtyEvery: 1}
+			fail := func(err error) *CaseResult {
+				if v, ok := err.(*Violation); ok {
+					res.fail(v)
+				} else {
+					res.fail(viol("harness", "%v", err))
+				}
+				res.Trace = w.trace
+				res.Hash = traceHash(res.Config, w.trace)
+				return res
+			}
+			root, err := w.NewRootArray(w.addr, TI{ID: 1})
+			if err != nil {
+				return fail(err)
+			}
+			w.AddRoot(root)
+			a, _ := w.NewRootArray(w.addr, TI{ID: 2})
+			g, _ := w.NewRootArray(w.addr, TI{ID: 3})
+			b, err := w.NewRootMap(w.addr, TI{ID: 4}, nil)
+			if err != nil || a == nil || g == nil {
+				return fail(viol("harness", "setup failed: %v", err))
+			}
+			var gv, av *Node = g, a
+			if wrapped == 1 {
+				gv = &Node{Kind: KSome, Inner: g}
+				av = &Node{Kind: KSome, Inner: &Node{Kind: KSome, Inner: a}}
+			}
+			steps := []func() error{
+				func() error { return w.OpArrayAppend(g, &Node{Kind: KU8, U: 9}) },
+				func() error { return w.OpArrayAppend(a, &Node{Kind: KU8, U: 8}) },
+				func() error { return w.OpArrayAppend(a, gv) },
+				func() error { return w.OpArrayAppend(root, &Node{Kind: KU8, U: 7}) },
+				func() error { return w.OpArrayAppend(root, av) },
+				func() error { return w.OpArrayAppend(root, &Node{Kind: KU8, U: 6}) },
+				func() error { return w.OpArrayAppend(root, b) },
+			}
+			for _, st := range steps {
+				if err := st(); err != nil {
+					return fail(err)
+				}
+			}
+			ops := ssNestedOps(w, root, a, g, b)
+			check := func() error {
+				if err := w.CheckTree(true); err != nil {
+					return err
+				}
+				if err := w.CheckDeep(); err != nil {
+					return err
+				}
+				return w.CheckDirty()
+			}
+			if err := check(); err != nil {
+				return fail(err)
+			}
+			x := sn
+			for d := 0; d < depth; d++ {
+				oi := x % nops
+				x /= nops
+				if err := ops[oi].run(w, root); err != nil {
+					return fail(err)
+				}
+				if err := check(); err != nil {
+					return fail(err)
+				}
+			}
+			if err := w.CommitAndCheck(false, 2); err != nil {
+				return fail(err)
+			}
+			seqs++
+			res.Stats.InlineToStand += w.stats.InlineToStand
+			res.Stats.StandToInline += w.stats.StandToInline
+			res.Stats.ColdReopens += w.stats.ColdReopens
+			if seqs == 1 {
+				res.Trace = w.trace
+			}
+		}
+	}
+	res.Evals = seqs
+	res.Obs["small-scope-sequences-nested"] = seqs
+	res.Hash = fnv64(fmt.Sprintf("ssn|%d|%d|%d", depth, part, parts))
+	res.NonTrivial = res.Stats.InlineToStand > 0 && res.Stats.StandToInline > 0
+	return res
+}
